@@ -91,17 +91,20 @@ def correlated_noise(shape, beam_pix, seed):
     return out / out.std()
 
 
-COARSE = [(sign, bp, ph) for sign in (1, -1) for bp in (3.0, 3.3, 3.6)
-          for ph in ((0.5, 0.5), (0.45, 0.55), (0.5, 0.25))]
+COARSE = [(sign, bp, ph, None) for sign in (1, -1) for bp in (3.0, 3.3, 3.6)
+          for ph in ((0.5, 0.5), (0.45, 0.55), (0.5, 0.25))] + \
+         [(sign, 3.0, ph, bpa) for sign in (1, -1) for bpa in (0.0, 90.0)
+          for ph in ((0.5, 0.0), (0.0, 0.5), (0.45, 0.05))]       # 2:1 beams: only the minor axis is coarsely sampled
 
 
 def coarse(conf, seed, k):
     """the coarsest admissible sampling: a point source of either sign under a round beam of 3.0-3.6 pixels, centred
     on or near a pixel corner (the brightest pixel is up to 15 % below the true peak)."""
     p = continuous(dict(conf, beam="circ"), seed)
-    sign, bp, ph = COARSE[k % len(COARSE)]
+    sign, bp, ph, bpa = COARSE[k % len(COARSE)]
     b = bp * p["scale"]
-    p.update(beam=(b, b, 0.0), a=b, b=b, pa=0.0, kind="point", amp=sign * max(abs(p["amp"]), 50.0),
+    a = b if bpa is None else 2.0 * b
+    p.update(beam=(a, b, bpa or 0.0), a=a, b=b, pa=bpa or 0.0, kind="point", amp=sign * 2000.0,
              x0=int(p["x0"]) + ph[0], y0=int(p["y0"]) + ph[1],
              phase="half-half" if ph == (0.5, 0.5) else "generic")
     return p
